@@ -95,6 +95,14 @@ class C07(Prop):
                 B = 64
             ops.append("open fmt=%s abc=%s B=%d" % (fmt, abc, B))
             ops += ["read"] * (len(recs) + 1)
+            if rng.random() < 0.35:
+                # esl-sfetch without an index: sequential search for one key / for a key file (own sessions, before the main one)
+                r0 = rng.choice(recs)
+                k0 = r0["acc"] if (r0.get("acc") and rng.random() < 0.4) else r0["name"]
+                pick = rng.sample(recs, min(len(recs), rng.choice([1, 2, 3])))
+                pre = ["open fmt=%s abc=text B=%d" % (fmt, B), "toolfetch key=" + hx(k0.encode()), "close",
+                       "open fmt=%s abc=text B=%d" % (fmt, B), "toolmulti text=" + hx(("# keys\n" + "".join(r["name"] + "\n" for r in pick)).encode("latin-1")), "close"]
+                ops[1:1] = pre
             ops.append("index")
             total = sum(len(r["seq"]) for r in recs)
             reqs = []
